@@ -15,7 +15,7 @@ package main
 //	w.lastNow / w.overdueDuration            -> fields lastNow / overdue of the record `w`
 //	select { case <-ctx.Done(): A; default: } B   -> if e.ctxDone then A else B
 //	next, ok := w.sched.Next(); if !ok { A }; B    -> match e.tok with | none => A | some next => B
-//	time.Now()                                -> e.now
+//	time.Now()                                -> e.now   (in Wait only AFTER w.sched.Next() in source order: ReadAfterPick)
 //	a.Sub(b) on time.Time                     -> timeSub a b  (exact; Go saturates, sign preserved)
 //	if w.timer == nil {NewTimer(d)} else {Reset(d)}  -> (arms the timer for d; no state the model reads)
 //	select { case <-w.timer.C: A; case <-ctx.Done(): B }  -> if e.timerWins then A else B
@@ -62,6 +62,8 @@ type wtr struct {
 	recv string
 	// the `if w.timer == nil {NewTimer(d)} else {Reset(d)}` statement of Wait, once seen
 	armStmt *ast.IfStmt
+	// inside Wait: `w.sched.Next()` has been translated (statements are translated in source order)
+	inWait, nextSeen bool
 }
 
 func (x *wtr) fail(n ast.Node, format string, a ...any) string {
@@ -162,6 +164,10 @@ func (x *wtr) expr(e ast.Expr) string {
 		}
 	case *ast.CallExpr:
 		if x.src(v) == "time.Now()" {
+			if x.inWait && !x.nextSeen {
+				// the theorems need the clock to be read AFTER the token has been picked up (ReadAfterPick)
+				return x.fail(e, "time.Now() is read before w.sched.Next() has returned the token")
+			}
 			return "e.now"
 		}
 		if x.src(v) == x.recv+".sched.Left()" {
@@ -248,6 +254,7 @@ func (x *wtr) block(stmts []ast.Stmt, ind string) string {
 		if len(v.Lhs) == 2 && len(v.Rhs) == 1 && x.src(v.Rhs[0]) == x.recv+".sched.Next()" && len(rest) > 0 {
 			a, b := x.src(v.Lhs[0]), x.src(v.Lhs[1])
 			if ifs, ok := rest[0].(*ast.IfStmt); ok && ifs.Else == nil && ifs.Init == nil && x.src(ifs.Cond) == "!"+b {
+				x.nextSeen = true
 				return ind + "match e.tok with\n" + ind + "| none =>\n" + x.block(ifs.Body.List, ind+"  ") + "\n" + ind + "| some " + mangle(a) + " =>\n" + x.block(rest[1:], ind+"  ")
 			}
 			return ind + x.fail(s, "Next() must be followed by `if !%s {...}`", b)
@@ -307,8 +314,10 @@ func waiterExtra(t *tr) string {
 	}
 	if fd := waiterFindMethod(t.pkg, "Waiter", "Wait"); fd != nil && len(fd.Recv.List[0].Names) == 1 {
 		x.recv = fd.Recv.List[0].Names[0].Name
+		x.inWait = true
 		b.WriteString("/-- regenerated from `core/coreutil/waiter.go` method `(*Waiter).Wait` -/\n")
 		b.WriteString("def Wait (" + x.recv + " : Waiter) (e : Env) : Waiter × Bool :=\n" + x.block(fd.Body.List, "  ") + "\n\n")
+		x.inWait = false
 		if x.armStmt != nil {
 			// the duration both NewTimer and Reset are called with, as a function of the local waitFor
 			call := x.armStmt.Body.List[0].(*ast.AssignStmt).Rhs[0].(*ast.CallExpr)
